@@ -869,3 +869,37 @@ func init() {
 	mut("C15", "Mul64WithOverflow fast path taken for a zero LOW word", true, "limb-identity",
 		Edit{cur, "\thi0, lo0 := bits.Mul64(c.Lo, v)\n\thi1, lo1 := bits.Mul64(c.Hi, v)\n", "\thi0, lo0 := bits.Mul64(c.Lo, v)\n\tif c.Lo == 0 {\n\t\treturn Currency{lo0, hi0}, false\n\t}\n\thi1, lo1 := bits.Mul64(c.Hi, v)\n"})
 }
+
+func init() {
+	// ---- round 6 rules ----
+	a := "consensus/application.go"
+	v := "consensus/validation.go"
+	m := "consensus/merkle.go"
+	mut("C01", "missed outputs of an expiring contract paid whether or not it was already resolved", true, "v1-expiry-missed-outputs",
+		Edit{a, "\t\tif ms.isSpent(fce.ID) {\n\t\t\tcontinue\n\t\t}\n\t\tms.resolveFileContractElement(fce.Share(), false, types.TransactionID(bid))\n", "\t\tif !ms.isSpent(fce.ID) {\n\t\t\tms.resolveFileContractElement(fce.Share(), false, types.TransactionID(bid))\n\t\t}\n"})
+	mut("C01", "(benign) expiring loop asks the two-result spent()", false, "",
+		Edit{a, "\t\tif ms.isSpent(fce.ID) {\n\t\t\tcontinue\n\t\t}\n", "\t\tif _, done := ms.spent(fce.ID); done {\n\t\t\tcontinue\n\t\t}\n"})
+	mut("C03", "ephemeral parent compared by value only", true, "v2-ephemeral-address",
+		Edit{v, "} else if sci.Parent.SiacoinOutput != esci.SiacoinOutput {", "} else if !sci.Parent.SiacoinOutput.Value.Equals(esci.SiacoinOutput.Value) {"})
+	mut("C04", "spent flag overwrites the top byte of the leaf index", true, "regions-disjoint",
+		Edit{m, "\t\tbuf[41] = 1\n", "\t\tbuf[40] = 1\n"})
+	mut("C04", "leaf index written as 4 bytes", true, "leaf-index",
+		Edit{m, "\tbinary.LittleEndian.PutUint64(buf[33:], l.LeafIndex)\n", "\tbinary.LittleEndian.PutUint32(buf[33:], uint32(l.LeafIndex))\n"})
+	mut("C06", "resolver overwrites the diff's element again (F18 returns)", true, "pre-block-element-kept",
+		Edit{a, "\tif !fced.Created && fced.Revision == nil {\n\t\t// first touch in this block; otherwise keep the element as it was\n\t\t// before the block (fce may already reflect an in-block revision)\n\t\tfced.FileContractElement = fce.Copy()\n\t}\n\tfced.Resolved = true\n", "\tfced.FileContractElement = fce.Copy()\n\tfced.Resolved = true\n"})
+	mut("C07", "challenge reduction with hi and lo swapped", true, "challenge-reduction",
+		Edit{"consensus/state.go", "_, r = bits.Div64(r, binary.BigEndian.Uint64(seed[i:]), numLeaves)", "_, r = bits.Div64(binary.BigEndian.Uint64(seed[i:])%numLeaves, r, numLeaves)"})
+	mut("C10", "tree root read before the existence test", true, "sink-discharged",
+		Edit{m, "\treturn acc.hasTreeAtHeight(len(l.MerkleProof)) && acc.Trees[len(l.MerkleProof)] == l.proofRoot()\n", "\troot := acc.Trees[len(l.MerkleProof)]\n\treturn acc.hasTreeAtHeight(len(l.MerkleProof)) && root == l.proofRoot()\n"})
+	mut("C13", "dispatcher derives the target from the previous difficulty", true, "inverse-pairing",
+		Edit{a, "\t\tdifficulty := adjustDifficultyV2(s, blockTimestamp)\n\t\treturn difficulty, invTarget(difficulty.n)\n", "\t\tdifficulty := adjustDifficultyV2(s, blockTimestamp)\n\t\treturn difficulty, invTarget(s.Difficulty.n)\n"})
+	mut("C19", "gateway response read under the request's limit", true, "direction-pairing",
+		Edit{"gateway/transport.go", "\treturn s.withDecoder(r.maxResponseLen(), r.decodeResponse)\n", "\treturn s.withDecoder(r.maxRequestLen(), r.decodeResponse)\n"})
+	mut("C15", "quoRem64 returns 0 for a zero dividend before dividing", true, "limb-identity",
+		Edit{"types/currency.go", "func (c Currency) quoRem64(v uint64) (q Currency, r uint64) {\n", "func (c Currency) quoRem64(v uint64) (q Currency, r uint64) {\n\tif c.IsZero() {\n\t\treturn\n\t}\n"})
+	mut("C15", "(benign) quoRem64 single-word fast path", false, "",
+		Edit{"types/currency.go", "func (c Currency) quoRem64(v uint64) (q Currency, r uint64) {\n", "func (c Currency) quoRem64(v uint64) (q Currency, r uint64) {\n\tif c.Hi == 0 {\n\t\tq.Lo, r = c.Lo/v, c.Lo%v\n\t\treturn\n\t}\n"})
+	mut("C09", "DeepCopy stops re-pointing at the first expiration", true, "loop-complete",
+		Edit{"types/types.go", "\t\tcase *V2FileContractRenewal:\n\t\t\trenewal := *res\n\t\t\tc.FileContractResolutions[i].Resolution = &renewal\n\t\t}\n\t}\n", "\t\tcase *V2FileContractRenewal:\n\t\t\trenewal := *res\n\t\t\tc.FileContractResolutions[i].Resolution = &renewal\n\t\tcase *V2FileContractExpiration:\n\t\t\tbreak copyResolutions\n\t\t}\n\t}\n"},
+		Edit{"types/types.go", "\tfor i := range c.FileContractResolutions {\n\t\tc.FileContractResolutions[i].Parent = c.FileContractResolutions[i].Parent.Copy()\n", "copyResolutions:\n\tfor i := range c.FileContractResolutions {\n\t\tc.FileContractResolutions[i].Parent = c.FileContractResolutions[i].Parent.Copy()\n"})
+}
